@@ -82,6 +82,59 @@ impl PoolImpl {
     }
 }
 
+
+// ---------------------------------------------------------------- C18 / C03 pool-level specification
+impl SlotState {
+    // this slot already holds a certificate of the same type (per block for notar-fallback)
+    pub open spec fn holds_cert_like(&self, c: Cert) -> bool {
+        match c {
+            Cert::Notar(_) => self.certificates.notar is Some,
+            Cert::NotarFallback(x) => self.has_nf_cert(x.block_hash),
+            Cert::Skip(_) => self.certificates.skip is Some,
+            Cert::FastFinal(_) => self.certificates.fast_finalize is Some,
+            Cert::Final(_) => self.certificates.finalize is Some,
+        }
+    }
+    // c is one of the certificates stored for this slot
+    pub open spec fn stores_cert(&self, c: Cert) -> bool {
+        match c {
+            Cert::Notar(x) => self.certificates.notar == Some(x),
+            Cert::NotarFallback(x) => exists|i: int| 0 <= i < self.certificates.notar_fallback@.len() && #[trigger] self.certificates.notar_fallback@[i] == x,
+            Cert::Skip(x) => self.certificates.skip == Some(x),
+            Cert::FastFinal(x) => self.certificates.fast_finalize == Some(x),
+            Cert::Final(x) => self.certificates.finalize == Some(x),
+        }
+    }
+    // the stored certificates prove this slot finalized: fast-final, or final together with notar
+    pub open spec fn proves_finalized(&self) -> bool {
+        self.certificates.fast_finalize is Some || (self.certificates.finalize is Some && self.certificates.notar is Some)
+    }
+}
+pub open spec fn bundle_proves_final(st: &SlotState, certs: Seq<Cert>) -> bool {
+    (certs.len() == 1 && st.certificates.fast_finalize is Some && certs[0] == Cert::FastFinal(st.certificates.fast_finalize->0))
+    || (certs.len() == 2 && st.certificates.finalize is Some && st.certificates.notar is Some
+        && certs[0] == Cert::Final(st.certificates.finalize->0) && certs[1] == Cert::Notar(st.certificates.notar->0))
+}
+
+// some slot >= from stores this certificate
+pub open spec fn stored_from(m: Map<Slot, SlotState>, from: int, c: Cert) -> bool {
+    exists|s: Slot| s.0 >= from && m.contains_key(s) && #[trigger] m[s].stores_cert(c)
+}
+// [C18] the tail of the bundle: exactly the certificates stored for slots after the finalized one
+pub open spec fn tail_ok(p: &PoolImpl, tail: Seq<Cert>) -> bool {
+    &&& forall|i: int| 0 <= i < tail.len() ==> stored_from(p.slot_states@, p.hi() + 1, #[trigger] tail[i])
+    &&& forall|c: Cert| #[trigger] stored_from(p.slot_states@, p.hi() + 1, c) ==> tail.contains(c)
+}
+// [C18] the head of the bundle: certificates proving the highest finalized slot (none only while nothing
+// beyond genesis is finalized)
+pub open spec fn head_ok(p: &PoolImpl, head: Seq<Cert>) -> bool {
+    if p.hi() > 0 { bundle_proves_final(&p.slot_states@[p.finality_tracker.highest_finalized_slot], head) }
+    else { head.len() == 0 || bundle_proves_final(&p.slot_states@[p.finality_tracker.highest_finalized_slot], head) }
+}
+// the event handed to the voting component for re-broadcast
+pub uninterp spec fn was_sent(e: PoolEvent) -> bool;
+pub uninterp spec fn was_sent_standstill(next: Slot, certs: Seq<Cert>, votes: Seq<Vote>) -> bool;
+
 pub mod code {
 use super::*;
 broadcast use super::axiom_Slot_obeys_cmp_laws, super::axiom_block_id_obeys_cmp_laws, super::axiom_DoubleMerkleRoot_obeys_cmp_laws;
@@ -89,6 +142,19 @@ broadcast use super::axiom_Slot_obeys_cmp_laws, super::axiom_block_id_obeys_cmp_
 /*@ include units/common/std_specs.rs @*/
 
 impl Slot {
+/*@ extract src/types/slot.rs :: impl Slot/fn next
+ret r
+requires
+        // [C18.slot_next_no_overflow C10.slot_next_no_overflow]
+        self.0 < u64::MAX,
+ensures
+        r.0 == self.0 + 1,
+@*/
+/*@ extract src/types/slot.rs :: impl Slot/fn is_genesis
+ret r
+ensures
+        r == (self.0 == 0),
+@*/
 /*@ extract src/types/slot.rs :: impl Slot/fn new
 ret r
 ensures
@@ -160,6 +226,56 @@ impl VerifSplitOff for BTreeMap<Slot, SlotState> {
     fn verif_split_off(&mut self, root: &Slot) -> (r: Self) { unimplemented!() }
 }
 
+
+// Rewrite R8 wrappers (iterator adapters / generic extend): TRUSTED documented behaviour.
+#[verifier::external_body]
+pub fn verif_any_nf_for_block(v: &Vec<NotarFallbackCert>, h: &BlockHash) -> (r: bool)
+    ensures r == exists|i: int| 0 <= i < v@.len() && #[trigger] v@[i].block_hash == *h
+{ unimplemented!() }
+#[verifier::external_body]
+pub fn verif_extend_certs(v: &mut Vec<Cert>, more: Vec<Cert>)
+    ensures final(v)@ == old(v)@ + more@
+{ unimplemented!() }
+
+impl ValidatedCert {
+/*@ extract src/consensus/validated_cert.rs :: impl ValidatedCert/fn slot
+ret r
+ensures
+        r == self.cert.spec_slot(),
+@*/
+/*@ extract src/consensus/validated_cert.rs :: impl ValidatedCert/fn into_cert
+ret r
+ensures
+        r == self.cert,
+@*/
+}
+impl Cert {
+/*@ extract src/consensus/cert.rs :: impl Cert/fn slot
+ret r
+ensures
+        r == self.spec_slot(),
+@*/
+}
+impl Clone for NotarCert { #[verifier::external_body] fn clone(&self) -> (r: Self) ensures r == *self { unimplemented!() } }
+impl Clone for FastFinalCert { #[verifier::external_body] fn clone(&self) -> (r: Self) ensures r == *self { unimplemented!() } }
+impl Clone for FinalCert { #[verifier::external_body] fn clone(&self) -> (r: Self) ensures r == *self { unimplemented!() } }
+impl Clone for NotarFallbackCert { #[verifier::external_body] fn clone(&self) -> (r: Self) ensures r == *self { unimplemented!() } }
+impl Clone for SkipCert { #[verifier::external_body] fn clone(&self) -> (r: Self) ensures r == *self { unimplemented!() } }
+
+impl PoolImpl {
+    // ASSUMED contracts (bodies iterate `BTreeMap::range` with a generic RangeBounds; not yet under contract):
+    // every certificate / own vote stored for a slot after `from`, and only those.
+    #[verifier::external_body]
+    pub fn verif_get_certs_from(&self, from: Slot) -> (r: Vec<Cert>)   // = self.get_certs(from..)
+        ensures
+            forall|i: int| 0 <= i < r@.len() ==> stored_from(self.slot_states@, from.0 as int, #[trigger] r@[i]),
+            forall|c: Cert| #[trigger] stored_from(self.slot_states@, from.0 as int, c) ==> r@.contains(c),
+    { unimplemented!() }
+    #[verifier::external_body]
+    pub fn get_own_votes(&self, slots: std::ops::RangeFrom<Slot>) -> (r: Vec<Vote>)
+    { unimplemented!() }
+}
+
 impl ParentReadyTracker {
     #[verifier::external_body]
     pub fn prune(&mut self, new_root: Slot) { unimplemented!() }
@@ -181,7 +297,11 @@ impl PoolImpl {
     // Event / repair channel sends and certificate follow-up: effects on other components are not
     // tracked in this unit (ASSUMED to keep the pool invariant; add_valid_cert is not yet under contract).
     #[verifier::external_body]
-    pub fn send_votor_event(&self, event: PoolEvent) { unimplemented!() }
+    pub fn send_votor_event(&self, event: PoolEvent)
+        ensures
+            was_sent(event),
+            event matches PoolEvent::Standstill(s, c, v) ==> was_sent_standstill(s, c@, v@),
+    { unimplemented!() }
     #[verifier::external_body]
     pub fn send_repair(&self, block: BlockId) { unimplemented!() }
     #[verifier::external_body]
@@ -260,6 +380,75 @@ before `self.parent_ready_tracker.prune(`
         proof {
             assert forall|s: Slot| #[trigger] self.slot_states@.contains_key(s) == self.slot_states.spec_map().contains_key(s) by {}
             assert(self.slot_states.spec_map() == self.slot_states@);
+        }
+@*/
+
+
+/*@ extract src/consensus/pool.rs :: impl Pool for PoolImpl/fn add_cert
+props C08 C03
+elide-async
+ret r
+rewrite[R8] `certs .notar_fallback .iter() .any(|nf| nf.block_hash() == nf_cert.block_hash())` => `verif_any_nf_for_block(&certs.notar_fallback, nf_cert.block_hash())`
+requires
+        old(self).wf(),
+ensures
+        // [C08.nothing_older_than_watermark_accepted]
+        (r == Err::<(), AddCertError>(AddCertError::SlotOutOfBounds)) <==> old(self).out_of_bounds(cert.cert.spec_slot()),
+        // [C03.cert_recorded_at_most_once_per_type]
+        (!old(self).out_of_bounds(cert.cert.spec_slot()) && old(self).st(cert.cert.spec_slot()).holds_cert_like(cert.cert))
+            ==> r == Err::<(), AddCertError>(AddCertError::Duplicate),
+        (!old(self).out_of_bounds(cert.cert.spec_slot()) && !old(self).st(cert.cert.spec_slot()).holds_cert_like(cert.cert)) ==> r is Ok,
+before `let slot = cert.slot();`
+        proof { broadcast use axiom_fresh_slot_state; }
+@*/
+
+/*@ extract src/consensus/pool.rs :: impl PoolImpl/fn get_final_certs
+props C18
+ret r
+ensures
+        // [C18.final_certs_prove_the_finalized_slot]
+        r@.len() > 0 ==> self.slot_states@.contains_key(slot) && bundle_proves_final(&self.slot_states@[slot], r@),
+        (self.slot_states@.contains_key(slot) && self.slot_states@[slot].proves_finalized()) ==> r@.len() > 0,
+@*/
+
+/*@ extract src/consensus/pool.rs :: impl Pool for PoolImpl/fn recover_from_standstill
+props C18 C10
+elide-async
+rewrite[R8] `certs.extend(self.get_certs(slot.next()..));` => `let verif_from = slot.next(); let verif_more = self.verif_get_certs_from(verif_from); let ghost more_view = verif_more@; verif_extend_certs(&mut certs, verif_more);`
+requires
+        self.wf(),
+        // pool invariant (maintained by add_valid_cert, ASSUMED here): the highest finalized slot is
+        // backed by stored certificates - unless nothing beyond genesis has been finalized yet
+        self.hi() > 0 ==> self.slot_states@.contains_key(self.finality_tracker.highest_finalized_slot)
+            && self.slot_states@[self.finality_tracker.highest_finalized_slot].proves_finalized(),
+ensures
+        // [C18.bundle_is_final_certs_then_all_later_certs_and_own_votes]
+        exists|head: Seq<Cert>, tail: Seq<Cert>, votes: Seq<Vote>|
+            #[trigger] was_sent_standstill(Slot((self.hi() + 1) as u64), head + tail, votes) && head_ok(self, head) && tail_ok(self, tail),
+after `let mut certs = self.get_final_certs(slot);`
+        let ghost fc = certs@;
+before `let event = PoolEvent::Standstill(slot.next(), certs, votes);`
+        proof {
+            assert(certs@ =~= fc + more_view);
+            assert(head_ok(self, fc));
+            let st = verif_from.0 as int;
+            assert(st == self.hi() + 1);
+            assert forall|i: int| 0 <= i < more_view.len() implies stored_from(self.slot_states@, self.hi() + 1, #[trigger] more_view[i]) by {
+                assert(stored_from(self.slot_states@, st, more_view[i]));
+            }
+            assert forall|c: Cert| #[trigger] stored_from(self.slot_states@, self.hi() + 1, c) implies more_view.contains(c) by {
+                assert(stored_from(self.slot_states@, st, c));
+            }
+            assert(tail_ok(self, more_view));
+        }
+        let ghost gcerts = certs@;
+        let ghost gvotes = votes@;
+        let ghost gnext = Slot((self.hi() + 1) as u64);
+after `self.send_votor_event(event);`
+        proof {
+            assert(was_sent_standstill(gnext, gcerts, gvotes));
+            assert(gcerts == fc + more_view);
+            assert(was_sent_standstill(gnext, fc + more_view, gvotes));
         }
 @*/
 
